@@ -306,9 +306,9 @@ func init() {
 	register(&CheckSpec{ID: "C15", Patterns: []string{pkgServer},
 		Jobs: func(tier string) []*JobCfg {
 			if tier == "thorough" {
-				return []*JobCfg{world(15, 2, 0, 8, kG|kM, fLoss), world(15, 2, 0, 7, kG|kM, fLoss|fProbe), world(15, 1, 1, 7, kG|kM, fLoss), world(15, 2, 0, 8, kG|kM, fDial), world(15, 2, 0, 7, kG|kM, fLoss|fSplit), job(pkgServer, "HarnessC13", 0, 1), job(pkgServer, "HarnessC13", 1, 1), job(pkgServer, "HarnessC13", 0, 2), world(15, 2, 0, 7, kG|kM, fRemove), world(15, 1, 1, 6, kG|kM, fRemove), world(15, 3, 0, 7, kG|kM, fLoss|fBatch), world(15, 2, 0, 8, kG|kM, fQuiet), world(15, 1, 1, 7, kG|kM, fQuiet|fBatch), world(15, 1, 1, 8, kG, fLoss|fHangup|fLate), world(15, 1, 1, 8, kG|kM, fQuiet|fHangup|fLate)}
+				return []*JobCfg{world(15, 2, 0, 8, kG|kM, fLoss), world(15, 2, 0, 7, kG|kM, fLoss|fProbe), world(15, 1, 1, 7, kG|kM, fLoss), world(15, 2, 0, 8, kG|kM, fDial), world(15, 2, 0, 7, kG|kM, fLoss|fSplit), job(pkgServer, "HarnessC13", 0, 1), job(pkgServer, "HarnessC13", 1, 1), job(pkgServer, "HarnessC13", 0, 2), world(15, 2, 0, 7, kG|kM, fRemove), world(15, 1, 1, 6, kG|kM, fRemove), world(15, 3, 0, 7, kG|kM, fLoss|fBatch), world(15, 2, 0, 8, kG|kM, fQuiet), world(15, 1, 1, 7, kG|kM, fQuiet|fBatch), world(15, 1, 1, 8, kG, fLoss|fHangup|fLate), world(15, 1, 1, 8, kG|kM, fQuiet|fHangup|fLate), noMapOrder(job(pkgServer, "HarnessC15Reuse", 0)), noMapOrder(job(pkgServer, "HarnessC15Reuse", 1))}
 			}
-			return []*JobCfg{world(15, 2, 0, 6, kG|kM, fLoss), world(15, 1, 0, 6, kG, fLoss|fProbe), world(15, 2, 0, 6, kG|kM, fDial), job(pkgServer, "HarnessC13", 0, 1), world(15, 2, 0, 5, kG|kM, fRemove), world(15, 2, 0, 6, kG, fLoss|fBatch), world(15, 2, 0, 6, kG|kM, fQuiet), world(15, 1, 1, 8, kG, fLoss|fHangup|fLate)}
+			return []*JobCfg{world(15, 2, 0, 6, kG|kM, fLoss), world(15, 1, 0, 6, kG, fLoss|fProbe), world(15, 2, 0, 6, kG|kM, fDial), job(pkgServer, "HarnessC13", 0, 1), world(15, 2, 0, 5, kG|kM, fRemove), world(15, 2, 0, 6, kG, fLoss|fBatch), world(15, 2, 0, 6, kG|kM, fQuiet), world(15, 1, 1, 8, kG, fLoss|fHangup|fLate), noMapOrder(job(pkgServer, "HarnessC15Reuse", 0)), noMapOrder(job(pkgServer, "HarnessC15Reuse", 1))}
 		},
 		Bounds: func(tier string) string {
 			return "pipelines of 2 requests (GET / two-key MGET), a backend connection lost at ANY point of every schedule up to 6/8 events (before the request is written, after it, after other replies; noticed by reading EOF or only by the next write failing), or node B removed from the topology by the ticker (slots unowned or taken over), or dialling a node failing, or a redirect naming an unknown node; a client that disconnects with a request in flight and another that connects afterwards (and gets the freed descriptor number) before the backend is lost; at quiescence every request is answered or its client closed"
